@@ -49,13 +49,15 @@ CANDIDATES_SHORT = ["", "user ", "\u03c0ass"]
 CFGS_QUICK = [
     (1, 2, 40, "RC4", True), (2, 3, 40, "RC4", True), (2, 3, 40, "RC4", False), (2, 3, 56, "RC4", True), (2, 3, 128, "RC4", True),
     (4, 4, 128, "V2", True), (4, 4, 128, "AESV2", True), (4, 4, 128, "Identity", True), (5, 5, 256, "AESV3", True), (5, 6, 256, "AESV3", True),
+    # V4 without the optional top-level /Length (its default is 40): the key length comes from the crypt filter (16 bytes)
+    (4, 4, 128, "V2", False), (4, 4, 128, "AESV2", False),
 ]
 CFGS_EXTRA = [(2, 3, 64, "RC4", True), (2, 3, 80, "RC4", True), (2, 3, 96, "RC4", True), (2, 3, 104, "RC4", True), (2, 3, 120, "RC4", True)]
 
 P_POOL = [-44, -4, -3904, -3900, -3896, -3888, -1]
 ID_POOL = [bytes(range(0x30, 0x40)), None]
 
-BOUNDS = {"quick": {"dev": 1, "cfgs": "10 x EncryptMetadata", "pairs": "quick"}, "thorough": {"dev": 2, "cfgs": "15 x EncryptMetadata", "pairs": "all"}}
+BOUNDS = {"quick": {"dev": 1, "cfgs": "12 x EncryptMetadata", "pairs": "quick"}, "thorough": {"dev": 2, "cfgs": "17 x EncryptMetadata", "pairs": "all"}}
 
 META = {
     "rule": (
@@ -73,7 +75,7 @@ META = {
         "R<=4 passwords: PDFDocEncoding-representable strings only as real passwords; unrepresentable ones only as wrong passwords",
         "not generated: P with reserved-one bits clear, StmF != StrF, per-stream /Crypt filters, public-key handlers, V=3, zero-length AES ciphertexts, object numbers >= 2^23",
         "the cross-reference stream fetched as an ordinary object through getobj() is counted under not_judged (the statement speaks of the trailer, which is compared)",
-        "one plaintext document shape (2 byte-content variants); strings up to 32 bytes, streams up to 31 bytes plus one page content stream",
+        "one plaintext document shape (2 byte-content variants); strings of 0,1,15,16,17,32 and 300 bytes, streams of 0,1,16,31 and 600 bytes (raw and Flate) plus one page content stream",
     ],
 }
 
@@ -110,7 +112,7 @@ def shards(tier):
 def _s(L: int, variant: int, tag: int) -> bytes:
     if variant == 0:
         base = (b"Str%d-" % tag) + b"abcdefghijklmnopqrstuvwxyz0123456789"
-        return base[:L]
+        return (base * (L // len(base) + 1))[:L]
     b = bytes(((i * 37 + L * 11 + tag * 5) & 0xFF) for i in range(L))
     if L >= 2 and tag % 2 == 0:
         b = b[:-1] + b"\x01"  # looks like one byte of PKCS#7 padding
@@ -148,6 +150,8 @@ def plain_doc(variant: int, ident: Optional[bytes]) -> S.Plain:
     o[16] = (0, _s(16, variant, 32))
     o[17] = (0, Stream({"Filter": N("FlateDecode")}, zlib.compress(b"")))
     o[18] = (0, Stream({}, _s(31, variant, 33)))
+    # longer than one pass of the RC4 index (256) and than several AES blocks
+    o[19] = (0, Stream({"Long": _s(300, variant, 40)}, _s(600, variant, 41)))
     o[300] = (7, {"S": _s(16, variant, 34), "T": [_s(15, variant, 35)]})
     o[70001] = (258 if variant == 0 else 65535, [_s(17, variant, 36), _s(1, variant, 37)])
     o[1193046] = (0, Stream({"Note": _s(15, variant, 38)}, _s(16, variant, 39)))
